@@ -278,7 +278,7 @@ def replay_c(payload):
     num_in = w.get("num") if isinstance(w.get("num"), list) else None
     num = [min(max(x, 0), RV.CAP) for x in (num_in or [0] * RV.DEPTH)]
     rnd = random.Random(1234)
-    prio_in = w.get("prio") if func != "_tdma_sched_bucket_sort" else None
+    prio_in = w.get("prio") if func != "_tdma_sched_bucket_sort" and isinstance(w.get("prio"), list) else None      # (tdma_schedule has a scalar `prio` argument)
     script = ["cur %d" % cur]
     state = {}
     for b in range(RV.DEPTH):
